@@ -11,6 +11,7 @@
 package main
 
 import (
+	"bytes"
 	"encoding/json"
 	"fmt"
 	"go/ast"
@@ -121,7 +122,15 @@ var unitSpecs = []unitSpec{
 		roots("priority/internal/common", "SumPriorities", "IsDistributionFilled", "IsDistributionFilledFor")...),
 		roots("internal/general", "DivideWithMin")...)},
 	{file: "GenRate.v", name: "Rate", roots: roots("v2/limit", "Rate.IsValid", "Rate.Recalculate", "Rate.Optimize", "Rate.Flatten")},
-	{file: "GenV2Prio.v", name: "V2Prio", auto: []autoSpec{{"v2/priority", []string{"priority.go", "assist.go"}}}},
+	// the functions SPEC.md expects at least are roots (exit status 2 when one of them is lost), the rest is decided by the tool
+	{file: "GenV2Prio.v", name: "V2Prio",
+		roots: roots("v2/priority", "calcDistributionQuantity", "safeCalcDistributionQuantity", "safeDivide", "Opts.isValid", "prepare",
+			"Discipline.isZeroActual", "Discipline.isDrainedInputs", "Discipline.markInputAsDrained",
+			"Discipline.increaseActual", "Discipline.decreaseActual", "Discipline.decreaseTactic",
+			"Discipline.calcVacants", "Discipline.resetTactic", "Discipline.calcTacticByAddUpToStrategic", "Discipline.updateUncrowded",
+			"Discipline.isTacticFilled", "Discipline.calcTacticBase", "Discipline.calcTactic",
+			"Discipline.updateUseful", "Discipline.updateUsefulLikeUncrowded", "Discipline.recalcTactic"),
+		auto: []autoSpec{{"v2/priority", []string{"priority.go", "assist.go"}}}},
 	{file: "GenV1Prio.v", name: "V1Prio", auto: []autoSpec{{"priority", []string{"priority.go", "assist.go"}}}},
 	{file: "GenV1Simple.v", name: "V1Simple", auto: []autoSpec{{"priority", []string{"simple.go"}}}},
 	{file: "GenV2Simple.v", name: "V2Simple", auto: []autoSpec{{"v2/priority/simple", nil}}},
@@ -201,9 +210,14 @@ func main() {
 	}
 
 	only := os.Getenv("GOTRANS_ONLY") // comma-separated list of output files (debugging aid)
+	specs := unitSpecs
+	if extra := os.Getenv("GOTRANS_EXTRA"); extra != "" {
+		// debugging aid: one more unit GenExtra.v with everything translatable of the package in this directory
+		specs = append(append([]unitSpec{}, specs...), unitSpec{file: "GenExtra.v", name: "Extra", auto: []autoSpec{{extra, nil}}})
+	}
 	index := map[string][]indexEntry{}
 	status := 0
-	for _, spec := range unitSpecs {
+	for _, spec := range specs {
 		if only != "" && !strings.Contains(","+only+",", ","+spec.file+",") {
 			continue
 		}
@@ -263,11 +277,14 @@ func main() {
 		}
 	}
 	if only == "" {
-		js, err := json.MarshalIndent(index, "", "  ")
-		if err != nil {
+		var buf bytes.Buffer
+		enc := json.NewEncoder(&buf)
+		enc.SetEscapeHTML(false)
+		enc.SetIndent("", "  ")
+		if err := enc.Encode(index); err != nil {
 			fail(1, "%v", err)
 		}
-		if err := os.WriteFile(filepath.Join(outdir, "gotrans_index.json"), append(js, '\n'), 0o644); err != nil {
+		if err := os.WriteFile(filepath.Join(outdir, "gotrans_index.json"), buf.Bytes(), 0o644); err != nil {
 			fail(1, "%v", err)
 		}
 	}
